@@ -3,8 +3,8 @@ From Coq Require Import List NArith ZArith.
 From GS Require Import Verdict.Status Verdict.StatusProofs Tracer.Enforce Tracer.EnforceProofs.
 Import ListNotations.
 
-(** for EVERY program (any stream of traced syscalls, forks, vforks, clones and exits of any number of
-    tasks), every schedule of the tracer's waits among them and every decision function of the handler:
+(** for EVERY program (any stream of traced syscalls, forks, vforks, clones, exits and arriving signals of any
+    number of tasks; a CPU- or file-size-limit signal ends the run with that verdict), every schedule of the tracer's waits among them and every decision function of the handler:
     a traced syscall executes only if the decision was allow; what the program sees of one that did not
     execute is -BanRet and the decision was ban; an allowed one has executed by the time the tracer goes
     back to wait; a banned one never executes; a kill decision ends the run as Disallowed Syscall with the
